@@ -169,4 +169,69 @@ def specElems (shell : Bool) (ps : List Param) : List Elem := elemsOf specArgs (
 def renderElems (es : List Elem) : List Char :=
   joinSp (es.map (fun e => if e.quoted then shlexQuote e.text.toList else e.text.toList))
 
+/-! ## Stream redirections (`CWLCommand.execute` + `create_command`)
+
+`none` stands for `asyncio.subprocess.STDOUT` ("not redirected"). -/
+
+/-- where the tool's standard error ends up -/
+inductive ErrTarget where
+  | inherit                 -- the runner's own stderr / log
+  | toStdout                -- merged into the tool's standard output (`2>&1`)
+  | file (f : List Char)
+deriving Repr, DecidableEq
+
+structure Streams where
+  stdin : Option (List Char)
+  stdout : Option (List Char)
+  stderr : ErrTarget
+deriving Repr, DecidableEq
+
+/-- the standard: `stdin` / `stdout` / `stderr` of the tool description, each redirected only when declared -/
+def specStreams (i o e : Option (List Char)) : Streams :=
+  { stdin := i, stdout := o, stderr := match e with | some f => .file f | none => .inherit }
+
+/-- tokens of the command suffix `create_command` appends -/
+inductive RTok where
+  | lt | gt | errTo | errDup
+  | word (w : List Char)
+deriving Repr, DecidableEq
+
+/-- `CWLCommand.execute`: `stderr = eval(self.stderr) if self.stderr is not None else stdout`; then `create_command`:
+`{stdin}{stdout}{stderr}` with `" 2>&1"` when `stderr == stdout` -/
+def sfSuffix (i o e : Option (List Char)) : List RTok :=
+  let err := match e with | some f => some f | none => (if Gen.CwlCmdTpl.stderrDefaultsToStdout then o else none)
+  (match i with | some f => [.lt, .word (shlexQuote f)] | none => []) ++
+  (match o with | some f => [.gt, .word (shlexQuote f)] | none => []) ++
+  (if err = o then [.errDup] else match err with | some f => [.errTo, .word (shlexQuote f)] | none => [])
+
+def renderSuffix : List RTok → List Char
+  | [] => []
+  | .lt :: .word w :: r => " < ".toList ++ w ++ renderSuffix r
+  | .gt :: .word w :: r => " > ".toList ++ w ++ renderSuffix r
+  | .errTo :: .word w :: r => " 2>".toList ++ w ++ renderSuffix r
+  | .errDup :: r => " 2>&1".toList ++ renderSuffix r
+  | _ :: r => renderSuffix r
+
+def wordOf (w : List Char) : Option (List Char) :=
+  match parseCmd .unq w [] [] with
+  | some [x] => some x
+  | _ => none
+
+/-- what `/bin/sh` does with the suffix, left to right -/
+def interpSuffix : List RTok → Streams → Option Streams
+  | [], s => some s
+  | .lt :: .word w :: r, s => match wordOf w with
+      | some f => interpSuffix r { s with stdin := some f }
+      | none => none
+  | .gt :: .word w :: r, s => match wordOf w with
+      | some f => interpSuffix r { s with stdout := some f }
+      | none => none
+  | .errTo :: .word w :: r, s => match wordOf w with
+      | some f => interpSuffix r { s with stderr := .file f }
+      | none => none
+  | .errDup :: r, s => interpSuffix r { s with stderr := .toStdout }
+  | _, _ => none
+
+def noStreams : Streams := { stdin := none, stdout := none, stderr := .inherit }
+
 end SFV.CwlCmd
